@@ -55,6 +55,11 @@ TVtx == /\ l <= Len(Rec) /\ E.k = "VTx"
              E.ok = ((\A c \in t.ins : Live(c) # {}) /\ (\A c \in t.outs : Live(c) = {}))
         /\ l' = l + 1 /\ UNCHANGED <<tree, n, ndel, last, th, results, ended>>
 
+\* the paginated UTXO scan (unspent_outputs_by_pmmr_index): one view of the committed state
+TScan == /\ l <= Len(Rec) /\ E.k = "Scan"
+         /\ E.ok /\ E.cnt = Cardinality(n.u.unspent) /\ E.nl = Len(n.u.outs)
+         /\ l' = l + 1 /\ UNCHANGED <<tree, n, ndel, last, th, results, ended>>
+
 THead == /\ l <= Len(Rec) /\ E.k = "Head"
          /\ E.head = n.head
          /\ l' = l + 1 /\ UNCHANGED <<tree, n, ndel, last, th, results, ended>>
@@ -68,7 +73,7 @@ TFinal == /\ l <= Len(Rec) /\ E.k = "Final"
           /\ ToSet(E.bodies) = n.bodies /\ ToSet(E.hdrs) = n.hdrs
           /\ l' = l + 1 /\ UNCHANGED <<tree, n, ndel, last, th, results, ended>>
 
-TNext == TSilent \/ TSec \/ TEnd \/ TRead \/ TVtx \/ THead \/ TFinal
+TNext == TSilent \/ TSec \/ TEnd \/ TRead \/ TVtx \/ TScan \/ THead \/ TFinal
 TSpec == TInit /\ [][TNext]_tvars
 
 \* high-water mark of consumed events (silent steps do not advance l)
